@@ -3,6 +3,8 @@
 package jwkutil
 
 import (
+	"encoding/base64"
+	"crypto"
 	"errors"
 
 	"github.com/lestrrat-go/jwx/v2/jwa"
@@ -87,6 +89,13 @@ func vpH_c18_loadkey() {
 		specs = append(specs, vpKeySpec{kid: kid, good: good, index: i})
 	}
 	want := vpStrUpTo(2, "a-b ") // ids are compared exactly: a blank or padded id is another id
+	if n > 0 && vpBool() {
+		// an id derived from a key in the file - its RFC 7638 thumbprint, as most
+		// tooling prints it - is not that key's id unless the file says so
+		if tp, terr := keys[0].Thumbprint(crypto.SHA256); terr == nil {
+			want = base64.RawURLEncoding.EncodeToString(tp)
+		}
+	}
 	path := vpKeySetFile(vpAbstractSet(keys...))
 	got, err := LoadKey(path, want)
 	vpCleanup()
